@@ -35,6 +35,7 @@ import (
 	"github.com/versity/versitygw/s3api"
 	"github.com/versity/versitygw/s3api/middlewares"
 	"github.com/versity/versitygw/s3event"
+	"github.com/versity/versitygw/s3log"
 )
 
 const (
@@ -54,6 +55,7 @@ type Opts struct {
 	ChownUID   bool
 	ChownGID   bool
 	Events     s3event.S3EventSender
+	AccessLog  bool            // S3 and admin access logs written to files below Dir (as with --access-log / --admin-access-log)
 	Backend    backend.Backend // if non-nil, used instead of a fresh posix backend
 	IAM        auth.IAMService // if non-nil, used instead of a fresh internal IAM
 }
@@ -159,8 +161,19 @@ func New(o Opts) (*GW, error) {
 	if o.ReadOnly {
 		opts = append(opts, s3api.WithReadOnly())
 	}
+	var s3l, adml s3log.AuditLogger
+	if o.AccessLog {
+		var lg *s3log.Loggers
+		quiet(func() {
+			lg, err = s3log.InitLogger(&s3log.LogConfig{LogFile: filepath.Join(o.Dir, "access.log"), AdminLogFile: filepath.Join(o.Dir, "admin-access.log")})
+		})
+		if err != nil {
+			return nil, err
+		}
+		s3l, adml = lg.S3Logger, lg.AdminLogger
+	}
 	_, err = s3api.New(g.App, g.BE, middlewares.RootUserConfig{Access: RootAccess, Secret: RootSecret},
-		":0", Region, g.IAM, nil, nil, o.Events, nil, opts...)
+		":0", Region, g.IAM, s3l, adml, o.Events, nil, opts...)
 	if err != nil {
 		return nil, err
 	}
